@@ -161,6 +161,41 @@ def chkC11 (tb : Tabs) (m' : Mon) (r : StepRec) : Bool :=
   decide (r.after.sc.country < tb.countryCount) && decide (0 ≤ r.after.sc.country) &&
   (!m'.clean || (r.after.sc.ecc == m'.ecc.vis && r.after.sc.country == m'.country.vis))
 
+/-! ## "received is shown": normal mode, whatever the history
+
+C01, C10 and C11 say what the getters show in terms of what was *received since the last reset*; their closed forms above
+are stated for histories in which the check mode did not change (`clean`). The clauses below hold for every history — also
+when the extended check was on earlier and has been switched off since: with the extended check off at the moment of the
+call, every value a group delivers through error-free blocks is what the getters show after the call, and both codes of
+an accepted AF pair are on the list (or are not FM codes). -/
+
+def afCondM (g : Group) : Bool := !g.versionB && g.eb = 0 && g.ec = 0 && g.c / 256 % 256 != 250
+def eccCondM (g : Group) : Bool := !g.versionB && g.eb = 0 && g.ec = 0 && g.c / 4096 % 8 = 0
+def afShown (af : List Bool) (v : Nat) : Bool := afGet af v || !afValid v
+
+def chkNormalScalars (r : StepRec) : Bool :=
+  match r.op.group? with
+  | none => true
+  | some g =>
+    r.before.set.ext ||
+    ((g.ea != 0 || r.after.sc.pi == (g.a : Int)) &&
+     (g.eb != 0 || (r.after.sc.pty == ((g.b / 32 % 32 : Nat) : Int) && r.after.sc.tp == ((g.b / 1024 % 2 : Nat) : Int))) &&
+     (!(g.type = 0 && g.eb = 0) ||
+        (r.after.sc.ta == ((g.b / 16 % 2 : Nat) : Int) && r.after.sc.ms == ((g.b / 8 % 2 : Nat) : Int))))
+
+def chkNormalAf (r : StepRec) : Bool :=
+  match r.op.group? with
+  | none => true
+  | some g =>
+    r.before.set.ext || !(g.type = 0 && afCondM g) ||
+      (afShown r.after.sc.af (g.c / 256 % 256) && afShown r.after.sc.af (g.c % 256))
+
+def chkNormalEcc (r : StepRec) : Bool :=
+  match r.op.group? with
+  | none => true
+  | some g =>
+    r.before.set.ext || !(g.type = 1 && eccCondM g) || r.after.sc.ecc == ((g.c % 256 : Nat) : Int)
+
 /-! ## C17: settings -/
 /-- the three setters of the settings C17 speaks about -/
 def Op.isSetter : Op → Bool
@@ -528,9 +563,9 @@ def chkC16 (cfg : Cfg) (r : StepRec) : Bool :=
 
 /-- all per-call predicates, with the property each belongs to -/
 def allChecks (tb : Tabs) (m m' : Mon) (r : StepRec) : List (String × Bool) :=
-  [("C01", chkC01 m' r), ("C02", chkC02 tb.cfg m r), ("C04", chkC04 m r && chkC04redeliver m r),
+  [("C01", chkC01 m' r && chkNormalScalars r), ("C02", chkC02 tb.cfg m r), ("C04", chkC04 m r && chkC04redeliver m r),
    ("C06", chkC06 tb.cfg m r), ("C07", chkC07 m r), ("C08", chkC08 m r && chkC08cb m r && chkC08first tb.cfg m r),
-   ("C09", chkC09 m' r), ("C10", chkC10 m' r), ("C11", chkC11 tb m' r), ("C12", chkC12 m r),
+   ("C09", chkC09 m' r), ("C10", chkC10 m' r && chkNormalAf r), ("C11", chkC11 tb m' r && chkNormalEcc r), ("C12", chkC12 m r),
    ("C13", chkC13 r), ("C14", chkC14 r), ("C15", chkC15 m r), ("C16", chkC16 tb.cfg r),
    ("C17", chkC17 m' r)]
 
